@@ -50,6 +50,15 @@ Theorem C02_paired_exactly_once_without_filter : forall p, prime p -> p < 65536 
 Proof. exact pcoh_complete. Qed.
 Print Assumptions C02_paired_exactly_once_without_filter.
 
+(* hence Euler's formula for the unpaired simplices: when nothing is filtered and no dimension is cut (persistence_dim_max), the
+   alternating count of the infinite intervals is the Euler characteristic of the complex, over every prime field *)
+Theorem C02_euler_formula : forall p, prime p -> p < 65536 -> forall cells, valid cells -> forall flag m sw,
+  (forall b d, (b < d)%nat -> length_ok cells m b d = true) ->
+  (forall k, (k < length cells)%nat -> Z.of_nat (dim_of cells k) < dim_max_of cells flag) ->
+  euler_inf cells (pcoh_gen sw (zp_ops p) cells flag m) = euler cells.
+Proof. exact pcoh_euler. Qed.
+Print Assumptions C02_euler_formula.
+
 (* birth precedes death in the filtration, the death simplex has one dimension more, the pair carries the characteristic *)
 Theorem C02_birth_before_death : forall p, prime p -> p < 65536 -> forall cells, valid cells -> forall flag m sw b d ch,
   In (b, Some d, ch) (pcoh_gen sw (zp_ops p) cells flag m) ->
